@@ -7,7 +7,7 @@ from fractions import Fraction
 from vlib import core
 
 META = {
-    "harness_bins": ["nkeval"],
+    "harness_bins": ["nkeval", "c02"],
     "extract": "C03.v",
     "technique": "Coq proof that an implementation-shaped model of contract generation (typ.rs subcontract) and application (internals.ncl bodies) accepts exactly the members of the type, returns the value unchanged and is idempotent; model tied to the interpreter by running the same (value, type) pairs through the extracted model and through `value | T` at the three annotation sites and twice",
     "level_text": "Theorems (coq/Props/C03.v), for every first-order type T (Number, String, Bool, Dyn, Array, closed/open record types, both dictionary flavours, closed enum types with optional arguments; no repeated record field / enum alternative) and every data value v, at either label polarity: check T v succeeds iff member T v (member is a separate specification written from the manual); on success the result equals v up to record field order; a second application returns exactly the first result; on failure the error is a blame with the label's polarity. check is the composition of a model of Type::subcontract (all specialisations, sealing-key counter, variable environment) and a model of the internals.ncl contract bodies ($record_type split/missing/extra/tail wrappers, $dict_*, $enum matcher, $array). The models are hand-written; the tie is the correspondence run: generated (v,T) pairs are printed as Nickel source from the model's own (v,T) and evaluated by the real interpreter (harness nkeval, eval_full) as `v | T`, `let x | T = v in x`, `{f | T = v}.f` and `(v | T) | T`, and compared with the model's predicted outcome (result tree or error class with blame polarity); an independent Python membership function is the direct oracle.",
@@ -289,6 +289,123 @@ def mutate(rng, v, t=None):
     return other_kind(rng, v)
 
 
+def gen_type_special(rng, depth):
+    """Types around the shapes the contract generator specialises or could specialise: sub-types
+    that are exactly Dyn (Array Dyn, {_ : Dyn}, Dyn fields, Dyn variant arguments), open and empty
+    records, empty enums."""
+    if depth <= 0 or rng.chance(1, 5):
+        return rng.choice(["Dyn", "Dyn", "Num", "Str", "Bool"])
+    c = rng.below(10)
+    if c < 2:
+        return ("arr", gen_type_special(rng, depth - 1))
+    if c < 6:
+        ks = rng.shuffle(KEYS)[:rng.below(4)]
+        return ("rec", "dyn" if rng.chance(3, 5) else "closed", [(k, gen_type_special(rng, depth - 1)) for k in ks])
+    if c < 8:
+        return ("dict", rng.choice(["t", "c"]), gen_type_special(rng, depth - 1))
+    rows, seen = [], set()
+    for _ in range(rng.below(4)):
+        tag = rng.choice(TAGS)
+        arg = gen_type_special(rng, depth - 1) if rng.chance(1, 2) else None
+        if (tag, arg is None) not in seen:
+            seen.add((tag, arg is None))
+            rows.append((tag, arg))
+    return ("enum", "closed", rows)
+
+
+def gen_member_full(rng, t, depth):
+    """Like gen_member, but arrays and dictionaries are non-empty (so that there is an element to
+    violate)."""
+    if not isinstance(t, str):
+        k = t[0]
+        if k == "arr":
+            return ("a", [gen_member_full(rng, t[1], depth - 1) for _ in range(rng.range(1, 2))])
+        if k == "dict":
+            ks = rng.shuffle(KEYS)[:rng.range(1, 2)]
+            return ("r", [(f, gen_member_full(rng, t[2], depth - 1)) for f in ks])
+        if k == "rec":
+            fs = [(f, gen_member_full(rng, x, depth - 1)) for f, x in t[2]]
+            if t[1] == "dyn" and rng.chance(1, 2):
+                extra = [f for f in rng.shuffle(KEYS)[:1] if f not in dict(t[2])]
+                fs += [(f, gen_value(rng, 0)) for f in extra]
+            return ("r", rng.shuffle(fs))
+        if k == "enum" and t[2]:
+            tag, arg = rng.choice(t[2])
+            return ("e", tag) if arg is None else ("v", tag, gen_member_full(rng, arg, depth - 1))
+    return gen_member(rng, t, depth)
+
+
+def single_violations(t, v):
+    """v is a member of t.  Yields (what, v') where v' differs from v at ONE position and fails
+    exactly one of the checks the type stands for: the kind of a ground value, "is an array /
+    record / enum", each declared field missing (whatever its type), an extra field in a closed
+    record, a tag outside the enum, the arity of a tag -- at every nesting level."""
+    if t == "Dyn":
+        return
+    if t == "Num":
+        yield ("ground", ("s", "1"))
+        return
+    if t == "Str":
+        yield ("ground", ("n", 1, 1))
+        return
+    if t == "Bool":
+        yield ("ground", ("u",))
+        return
+    k = t[0]
+    if k == "arr":
+        yield ("not-array", ("r", []))
+        for i, x in enumerate(v[1][:2]):
+            for what, x2 in single_violations(t[1], x):
+                yield ("elem/" + what, ("a", v[1][:i] + [x2] + v[1][i + 1:]))
+    elif k == "dict":
+        yield ("not-record", ("a", []))
+        for i, (f, x) in enumerate(v[1][:2]):
+            for what, x2 in single_violations(t[2], x):
+                yield ("dict/" + what, ("r", v[1][:i] + [(f, x2)] + v[1][i + 1:]))
+    elif k == "rec":
+        yield ("not-record", ("a", []))
+        decl = dict(t[2])
+        for f, ft in t[2]:
+            yield ("missing-%s-field-%s" % (tcon(ft), t[1]), ("r", [(g, x) for g, x in v[1] if g != f]))
+        if t[1] == "closed":
+            free = [f for f in KEYS if f not in dict(v[1])]
+            if free:
+                yield ("extra-field", ("r", v[1] + [(free[0], ("n", 1, 1))]))
+        for i, (f, x) in enumerate(v[1]):
+            if f in decl:
+                for what, x2 in single_violations(decl[f], x):
+                    yield ("field/" + what, ("r", v[1][:i] + [(f, x2)] + v[1][i + 1:]))
+    elif k == "enum":
+        yield ("not-enum", ("s", v[1] if v[0] in ("e", "v") else "A"))
+        yield ("unknown-tag", ("e", "Zz"))
+        yield ("unknown-tag", ("v", "Zz", ("n", 1, 1)))
+        if v[0] == "e":
+            yield ("arity", ("v", v[1], ("n", 1, 1)))
+        elif v[0] == "v":
+            yield ("arity", ("e", v[1]))
+            arg = dict((tag, ty) for tag, ty in t[2] if ty is not None).get(v[1])
+            if arg is not None:
+                for what, x2 in single_violations(arg, v[2]):
+                    yield ("variant/" + what, ("v", v[1], x2))
+
+
+def gen_targeted(rng, depth, cap):
+    """One type, one member, and up to `cap` single-check violations of it (all of them when
+    cap is None).  Returns [(value, type, what)]."""
+    t = gen_type_special(rng, depth) if rng.chance(1, 2) else gen_type(rng, depth)
+    m = gen_member_full(rng, t, depth)
+    vs = [(what, v) for what, v in single_violations(t, m) if not py_member(t, v)]
+    if cap is not None and len(vs) > cap:
+        # keep one of each kind of check first, then fill up
+        byk = {}
+        for what, v in rng.shuffle(vs):
+            byk.setdefault(what.split("/")[-1], []).append((what, v))
+        picked = [l[0] for l in byk.values()][:cap]
+        rest = [x for l in byk.values() for x in l[1:]]
+        vs = picked + rest[:max(0, cap - len(picked))]
+    return [(m, t, "member")] + [(v, t, what) for what, v in vs]
+
+
 def gen_pair(rng, depth):
     dups = rng.chance(1, 20)
     t = gen_type(rng, depth, dups)
@@ -333,6 +450,10 @@ def exhaustive(full):
     t0, t1 = small_types()
     pairs = [(v, t) for v in v1 for t in t0] + [(v, t) for v in atoms for t in t1]
     if not full:
+        # plus every container value against every type of the same shape (records x record and
+        # dictionary types, arrays x array types, enum values x enum types)
+        shape = {"r": ("rec", "dict"), "a": ("arr",), "e": ("enum",), "v": ("enum",)}
+        pairs += [(v, t) for v in v1 if v[0] in shape for t in t1 if t[0] in shape[v[0]]]
         return pairs
     pairs = [(v, t) for v in v1 for t in t0 + t1]
     # nesting 2: one container level around a selection of depth-1 types / values
@@ -418,9 +539,10 @@ def depth_t(t):
     return 1 + max([0] + [depth_t(x) for _, x in t[2] if x is not None])
 
 
-def run_pairs(ck, pairs, exe_model, sites, label):
+def run_pairs(ck, pairs, exe_model, sites, label, sites_per_pair=None, whats=None):
     """pairs: list of (v, t).  Runs the model, then the interpreter on the programs the model
-    printed, and compares."""
+    printed, and compares.  sites_per_pair[i] overrides `sites` for pair i; whats[i] names the
+    check a targeted value violates (distribution only)."""
     lines = [sx_v(v) + "\t" + sx_t(t) for v, t in pairs]
     rc, mout, err = core.run_sharded(exe_model, [], lines)
     if rc:
@@ -435,7 +557,9 @@ def run_pairs(ck, pairs, exe_model, sites, label):
             parsed.append(None)
             continue
         parsed.append(f)
-        for s in sites:
+        if whats:
+            ck.hist("targeted_check", whats[i].split("/")[-1])
+        for s in (sites_per_pair[i] if sites_per_pair else sites):
             progs.append("full\t" + f[3 + s].replace("\\", "\\\\").replace("\n", "\\n"))
             index.append((i, s))
     rc, iout, err = run_chunked(core.harness_bin("nkeval"), [], progs)
@@ -488,9 +612,65 @@ def run_pairs(ck, pairs, exe_model, sites, label):
             shown += 1
 
 
+def skeleton_tie(ck, types, label):
+    """Syntactic tie of Type::subcontract: the skeleton of the contract the real `Type::contract`
+    generates for each type (harness bin c02 walks the generated term) must be the model's
+    `contract_of`.  Returns the types on which they differ."""
+    rc, out, exe2 = core.ocaml_build("c02", "C02.v", "driver.ml")
+    if rc:
+        ck.obligation("model-extraction:C02.v (skeleton printer)", "build", False, out[-2000:])
+        return []
+    uniq, seen = [], set()
+    for t in types:
+        k = sx_t(t)
+        if k not in seen:
+            seen.add(k)
+            uniq.append(t)
+    sx = [sx_t(t) for t in uniq]
+    rc, srcs, err = core.run_sharded(exe2, ["src"], sx)
+    rc2, impl, err2 = core.run_sharded(core.harness_bin("c02"), [], srcs) if not rc else (1, [], "")
+    rc3, model, err3 = core.run_sharded(exe2, ["skel"], sx) if not rc2 else (1, [], "")
+    if rc or rc2 or rc3:
+        ck.obligation("skeleton-run:" + label, "internal", False, "%s %s %s" % (err, err2, err3))
+        return []
+    bad = []
+    for t, src, a, b in zip(uniq, srcs, impl, model):
+        fa, fb = a.split("\t"), b.split("\t")
+        ck.case(key="skel:" + src, nontrivial=not isinstance(t, str))
+        ck.hist("skeleton_cases", "compared")
+        if len(fa) < 3 or not fa[0].startswith("T ") or fa[0][2:] != sx_t(t):
+            ck.obligation("printer:type-roundtrip", "internal", False, "%s -> %s -> %s" % (sx_t(t), src, a[:300]))
+            continue
+        if fa[1] != fb[0]:
+            bad.append(t)
+            if len(bad) <= 3:
+                ck.obligation("correspondence:skeleton-of-generated-contract", "correspondence", False,
+                              "type %s\nimpl  %s\nmodel %s" % (src, fa[1], fb[0]))
+    ck.coverage.setdefault("skeleton_types_compared", 0)
+    ck.coverage["skeleton_types_compared"] += len(uniq)
+    return bad
+
+
+def search_types(ck, types, exe_model):
+    """The generated contract of these types is not the modelled one: look for a value on which
+    the property itself fails (member and every single-check violation, all sites)."""
+    rng = core.SplitMix64(ck.seed * 7919 + 31)
+    pairs, whats = [], []
+    for t in types[:40]:
+        for _ in range(3):
+            m = gen_member_full(rng, t, 4)
+            pairs.append((m, t))
+            whats.append("member")
+            for what, v in single_violations(t, m):
+                if not py_member(t, v):
+                    pairs.append((v, t))
+                    whats.append(what)
+    run_pairs(ck, pairs[:4000], exe_model, [0, 1, 2, 3], "search", whats=whats[:4000])
+
+
 def run(ck):
     ck.coq("Props.C03", clean=False)
-    ok = ck.harness(["nkeval"])
+    ok = ck.harness(["nkeval", "c02"])
     exe_model = ck.model("C03.v")
     if not ok or not exe_model:
         return
@@ -502,13 +682,30 @@ def run(ck):
     ex = exhaustive(thorough)
     ck.coverage["exhaustive_small_pairs"] = len(ex)
     run_pairs(ck, ex, exe_model, [0, 1, 2, 3] if thorough else [0], "exhaustive")
-    n = 12000 if thorough else 1500
+    n = 8000 if thorough else 600
     sample = []
     for i in range(n):
         sample.append(gen_pair(rng.fork(), rng.choice([1, 2, 2, 3, 3, 4])))
     run_pairs(ck, sample, exe_model, [0, 1, 2, 3], "sample")
     ck.coverage["sampled_pairs"] = n
+    # targeted part: for each generated type a member and values violating ONE check each
+    nt = 6000 if thorough else 450
+    tp, tsites, twhat = [], [], []
+    for i in range(nt):
+        r = rng.fork()
+        for v, t, what in gen_targeted(r, r.choice([1, 2, 2, 3, 3]), None if thorough else 6):
+            tp.append((v, t))
+            twhat.append(what)
+            tsites.append([0, 1, 2, 3] if what == "member" or thorough else [0, 1 + r.below(3)])
+    run_pairs(ck, tp, exe_model, [0], "targeted", sites_per_pair=tsites, whats=twhat)
+    ck.coverage["targeted_types"] = nt
+    ck.coverage["targeted_pairs"] = len(tp)
+    # syntactic tie of subcontract on every type used above; a difference starts the search
+    bad = skeleton_tie(ck, [t for _, t in cor + ex + sample + tp], "all")
+    if bad:
+        search_types(ck, bad, exe_model)
     ck.coverage["rule"] = ("case = (data value, type, annotation site); exhaustive part: all values of nesting <= 1 over atoms {1, \"a\", true, null, 'A} with <= 2 elements/fields against all types of nesting <= 1 (thorough: plus one more container level over a selection; quick: values x ground types and atoms x types, site `v | T` only); "
+                           "targeted part: for each seeded random type (half of them biased to the shapes the generator specialises: sub-types exactly Dyn, open/empty records, empty enums) a member with non-empty containers and values that differ from it at one position and fail exactly one check -- ground kind, not-an-array/record/enum, EACH declared field missing whatever its type, extra field in a closed record, unknown tag, tag arity -- at every nesting level (quick: <= 6 per type, one per kind of check first; member at 4 sites, violations at `v | T` and one other site); quick exhaustive part also has every container value against every type of the same shape; the skeleton of the real generated contract (harness bin c02) is compared with the model's for every type used, and a difference triggers a focused search over those types; "
                            "sampled part: seeded random type of depth <= 4, then a member of it (40%), a member mutated at one position (50%: kind of a subvalue, field dropped/added/renamed, tag or arity changed) or an arbitrary value (10%), each at the 4 sites; field names/tags include quoted, keyword-like, empty and non-ASCII ones; non-trivial = the type is not a ground type; distinct by exact (value, type, site)")
     ck.coverage["partial"] = "theorems cover the first-order fragment without polymorphic tails; function and polymorphic contracts are C02/C11"
     ck.trusted += ["extraction: ExtrOcamlBasic + ExtrOcamlNativeString", "harness bin nkeval (eval_full, canonical tree printer)",
@@ -518,7 +715,7 @@ def run(ck):
 
 def replay(ck, path):
     obj = json.load(open(path))
-    ok = ck.harness(["nkeval"])
+    ok = ck.harness(["nkeval", "c02"])
     exe_model = ck.model("C03.v")
     if ok and exe_model and "case" in obj:
         v, t = from_json_v(obj["case"]["v"]), from_json_t(obj["case"]["t"])
